@@ -132,6 +132,9 @@ func RunHX(c HXCheck, tier string) int {
 	if tier == "thorough" {
 		dl = c.Thorough
 	}
+	if v, err := strconv.Atoi(os.Getenv("VERIF_DEADLINE_S")); err == nil && v > 0 {
+		dl = time.Duration(v) * time.Second // for trying things on a loaded machine
+	}
 	deadline := start.Add(dl)
 	pool := par.NewPool(Workers(), "worker", "hx")
 	defer pool.Close()
